@@ -358,9 +358,11 @@ func scopeOf(toks []sqlTok, idx int) (lo, hi int) {
 	return
 }
 
-// hasLedgerPredicate: within toks[lo:hi] at exactly depth d, is there `[alias.]ledger = <rhs>` (either
-// order) with rhs one of the accepted ledger sources?
-func hasLedgerPredicate(toks []sqlTok, lo, hi, d int, rhs func(toks []sqlTok, i int) (int, bool)) bool {
+// hasLedgerPredicate: within toks[lo:hi] at exactly depth d, is there `[qual.]ledger = <rhs>` (either
+// order) with rhs one of the accepted ledger sources? When quals is not nil, a qualified column counts
+// only if its qualifier is one of quals (the table being scoped or its alias): `accounts.ledger = ?`
+// inside `select … from moves` constrains the outer row, not the moves being read.
+func hasLedgerPredicate(toks []sqlTok, lo, hi, d int, rhs func(toks []sqlTok, i int) (int, bool), quals map[string]bool) bool {
 	var flat []sqlTok
 	for i := lo; i < hi; i++ {
 		if toks[i].Depth == d {
@@ -368,10 +370,13 @@ func hasLedgerPredicate(toks []sqlTok, lo, hi, d int, rhs func(toks []sqlTok, i 
 		}
 	}
 	isLedgerCol := func(i int) (int, bool) { // returns next index
-		if i < len(flat) && flat[i].Text == "ledger" {
+		if i < len(flat) && flat[i].Text == "ledger" && (i == 0 || flat[i-1].Text != ".") {
 			return i + 1, true
 		}
 		if i+2 < len(flat) && flat[i].Kind == 'w' && flat[i+1].Text == "." && flat[i+2].Text == "ledger" && flat[i].Text != "new" {
+			if quals != nil && !quals[flat[i].Text] {
+				return i, false
+			}
 			return i + 3, true
 		}
 		return i, false
@@ -386,6 +391,44 @@ func hasLedgerPredicate(toks []sqlTok, lo, hi, d int, rhs func(toks []sqlTok, i 
 			if _, ok := isLedgerCol(n + 1); ok {
 				return true
 			}
+		}
+	}
+	return false
+}
+
+// hasSeqKey: within toks[lo:hi] at depth d, is the table (quals) keyed by a sequence of another row:
+// `[qual.]<x>seq = other.<y>seq` (either order)? Sequences are unique across ledgers.
+func hasSeqKey(toks []sqlTok, lo, hi, d int, quals map[string]bool) bool {
+	var flat []sqlTok
+	for i := lo; i < hi; i++ {
+		if toks[i].Depth == d {
+			flat = append(flat, toks[i])
+		}
+	}
+	isSeq := func(s string) bool { return s == "seq" || s == "accounts_seq" || s == "transactions_seq" }
+	// col(i): a possibly qualified seq column starting at i: returns (qualifier, next, ok)
+	col := func(i int) (string, int, bool) {
+		if i+2 < len(flat) && flat[i].Kind == 'w' && flat[i+1].Text == "." && isSeq(flat[i+2].Text) {
+			return flat[i].Text, i + 3, true
+		}
+		if i < len(flat) && isSeq(flat[i].Text) && (i == 0 || flat[i-1].Text != ".") {
+			return "", i + 1, true
+		}
+		return "", i, false
+	}
+	for i := 0; i < len(flat); i++ {
+		q1, n, ok := col(i)
+		if !ok || n >= len(flat) || flat[n].Text != "=" {
+			continue
+		}
+		q2, _, ok2 := col(n + 1)
+		if !ok2 {
+			continue
+		}
+		own1 := q1 == "" || quals[q1]
+		own2 := q2 == "" || quals[q2]
+		if own1 != own2 || (q1 != q2 && (own1 || own2)) {
+			return true
 		}
 	}
 	return false
